@@ -43,7 +43,22 @@ def run(ck):
                 ck.verdict(T.resolves_to_arg(b, io.args[0], 1) or T.resolves_to_call(b, io.args[0], [c.bb for c in gm]), "1", "T6-provenance", b, "receiver-is-own-fd", "the inner call is made on the adapter's own fd", "the inner call is not made on the adapter's own fd", site=b.where(io.bb))
                 # Ready(res) carries the inner result unchanged
                 readies = [(i, st) for i, j, st in b.statements() if st["s"] == "assign" and st["pl"]["l"] in T.ret_locals(b) and st["rv"]["r"] == "agg" and st["rv"].get("variant") == "Ready" and not b.is_cleanup(i)]
-                okr = bool(readies) and all(any(r == ("call", io.bb) and not p for r, p in b.resolve(st["rv"]["fields"][0])) for i, st in readies)
+                rw_calls = [cs.bb for cs in b.calls() if cs.name == "register_waker" and not b.is_cleanup(cs.bb)]
+
+                def ready_ok(op):
+                    aps = b.resolve(op)
+                    if any(r == ("call", io.bb) and not p for r, p in aps):
+                        return True
+                    # the only other Ready: the error of arming the waker (what `register_waker(..)?` produces), never a
+                    # made-up byte count
+                    for r, p in aps:
+                        if r[0] == "agg":
+                            rv = b.agg_at(r[1], r[2])
+                            if rv.get("variant") == "Err" and rv["fields"] and T.tainted_by_call(b, rv["fields"][0], rw_calls):
+                                return True
+                    return False
+
+                okr = bool(readies) and all(ready_ok(st["rv"]["fields"][0]) for i, st in readies) and any(any(r == ("call", io.bb) and not p for r, p in b.resolve(st["rv"]["fields"][0])) for i, st in readies)
                 ck.verdict(okr, "1", "T6-provenance", b, "Ready(result)-unchanged", "every Ready result is the inner call's result, unchanged", "a Ready result is not the unchanged result of the inner call", site=b.where())
                 # WouldBlock => register_waker(interest) => Pending
                 rw = [cs for cs in b.calls() if cs.name == "register_waker" and not b.is_cleanup(cs.bb)]
@@ -159,6 +174,22 @@ def run(ck):
                 fa = T.edges_of_value(sn, sw, False)
                 ok = ok and all(T.reachable_only_via(sn, c.bb, tr) for c in ors) and all(T.reachable_only_via(sn, c.bb, fa) for c in ands)
         ok = ok and all(any(r[0] == "call" and r[1] in [c.bb for c in ors + ands] for r, p in sn.resolve(c.args[1])) for c in setfl)
+    if not ok and getfl and setfl:
+        # the bitflags spelling: `let mut w = current; w.set(OFlags::NONBLOCK, on)` (insert when true, remove when false)
+        sets = [cs for cs in sn.calls() if cs.name == "set" and cs.f and "OFlags" in (cs.f.get("full") or cs.f["path"]) and not sn.is_cleanup(cs.bb)]
+        for c in sets:
+            tgt = None
+            for d in sn.defs().get(op_place(c.args[0])["l"], []) if op_place(c.args[0]) and not op_place(c.args[0])["p"] else []:
+                if d[0] == "assign" and d[3]["rv"]["r"] == "ref" and not d[3]["rv"]["pl"]["p"]:
+                    tgt = d[3]["rv"]["pl"]["l"]
+            if tgt is None:
+                continue
+            init_ok = T.resolves_to_call(sn, {"c": {"l": tgt, "p": [], "t": 0}}, [getfl[0].bb])
+            flag_ok = "NONBLOCK" in T.const_name(sn, c.args[1])
+            on_ok = T.resolves_to_arg(sn, c.args[2], 2)
+            wr_ok = all(tgt in T.copy_chain_locals(sn, w.args[1]) or any(r == ("local", tgt) for r, p_ in sn.resolve(w.args[1])) for w in setfl) and all(sn.dominates(c.bb, w.bb) for w in setfl)
+            if init_ok and flag_ok and on_ok and wr_ok:
+                ok = True
     ck.verdict(ok, "4", "T14-bit-provenance", sn, "sets/clears-exactly-NONBLOCK", "set_nonblocking(true) ORs NONBLOCK into the current flags, set_nonblocking(false) ANDs its complement, and writes that value back", "set_nonblocking does not set/clear exactly the NONBLOCK flag on the fd's current flags", site=sn.where())
     cont = [cs for cs in sn.calls() if cs.name == "contains"]
     ck.verdict(bool(cont) and all(T.resolves_to_call(sn, c.args[0], [getfl[0].bb]) and nb(c.args[1]) for c in cont) if getfl else False, "4", "T6-provenance", sn, "returns-previous-NONBLOCK", "the function reports whether NONBLOCK was set before", "set_nonblocking does not report the previous mode", site=sn.where())
